@@ -79,9 +79,15 @@ def gen_statement(rnd, labels, stack):
     return ("add", [r(), r(), r()])
 
 
+ESC_ATOMS = ["\\\\", "\\n", "\\t", "\\r", "\\\"", "\\q", "n", "t", "r", "a", " ", "\\\\n", "\\\\t", "\\\\r", "\\\\\\\\"]
+
+
 def rand_string(rnd):
     pool = ["Hello", "a b", "", "x", "\\n", "tab\\t", "q\\\"q", "back\\\\slash", "\\r", "\\z", "é", "日本", "😀",
             "semi;colon", "com,ma", "co:lon", "#1", "x3000", ".fill"]
+    if rnd.random() < 0.4:
+        # escape-heavy: sequences of escapes, escaped backslashes followed by n/t/r, lone letters
+        return "".join(rnd.choice(ESC_ATOMS) for _ in range(rnd.randrange(1, 6)))
     return "".join(rnd.choice(pool) for _ in range(rnd.randrange(0, 3)))
 
 
